@@ -762,8 +762,12 @@ pub fn fuzz_one(data: &[u8], obs: &mut Obs) {
     for (i, e) in list.iter().enumerate() {
         if let ds::Horizontal::Discretionary(d) = e {
             let r = d.replace_count as usize;
-            if (r > 0 && i + r >= list.len()) || list[i + 1..(i + 1 + r).min(list.len())].iter().any(|x| matches!(x, ds::Horizontal::Discretionary(_))) {
-                obs.skip("fuzz:discretionary-replaces-missing-nodes-or-another-discretionary");
+            // (TeX §841/§869: characters, ligatures, boxes, rules and kerns only - anything else is `confusion`)
+            let box_like = |x: &ds::Horizontal| {
+                matches!(x, ds::Horizontal::Char(_) | ds::Horizontal::Ligature(_) | ds::Horizontal::HBox(_) | ds::Horizontal::VBox(_) | ds::Horizontal::Rule(_) | ds::Horizontal::Kern(_))
+            };
+            if (r > 0 && i + r >= list.len()) || !list[i + 1..(i + 1 + r).min(list.len())].iter().all(box_like) {
+                obs.skip("fuzz:discretionary-replaces-missing-nodes-or-nodes-that-are-not-box-like");
                 return;
             }
         }
